@@ -276,6 +276,14 @@ func resolve(table []Entry, qname string, qtype uint16) (ex *expectation) {
 			return ex
 		}
 		vals, exc := l0.forFamily(qtype)
+		other := uint16(dns.TypeA)
+		if qtype == dns.TypeA {
+			other = dns.TypeAAAA
+		}
+		if _, oexc := l0.forFamily(other); oexc && !l0.exact && (exc || len(vals) > 0) {
+			ex.wildOtherExc = true
+			ex.tag("wildcard_with_other_family_exception")
+		}
 		switch {
 		case exc && len(vals) > 0:
 			ex.kind, ex.why = oUnspecified, "exception and value of the same family at "+l0.pat
@@ -289,14 +297,6 @@ func resolve(table []Entry, qname string, qtype uint16) (ex *expectation) {
 			}
 		case len(vals) > 0:
 			ex.kind, ex.vals, ex.why = oLocal, vals, "values of "+l0.pat
-			other := uint16(dns.TypeA)
-			if qtype == dns.TypeA {
-				other = dns.TypeAAAA
-			}
-			if _, oexc := l0.forFamily(other); oexc && !l0.exact {
-				ex.wildOtherExc = true
-				ex.tag("wildcard_value_with_other_family_exception")
-			}
 		default:
 			for _, l := range lv[1:] {
 				if v, e := l.forFamily(qtype); len(v) > 0 || e {
